@@ -110,6 +110,16 @@ def battery():
             q.append(["f", "intervals", "from_shorthand", [n, sh]])
             q.append(["f", "intervals", "from_shorthand", [n, sh, False]])
             q.append(["f", "intervals", "from_shorthand", [n, sh, True]])
+            q.append(["fk", "intervals", "from_shorthand", [n, sh], {"up": False}])
+            q.append(["fk", "intervals", "from_shorthand", [n, sh], {"up": True}])
+    for ch in [["E", "G", "Bb", "D", "C"], ["C", "E", "G"]]:
+        q.append(["fk", "chords", "determine", [ch], {"shorthand": True, "no_inversions": True}])
+        q.append(["fk", "chords", "determine", [ch], {"shorthand": True}])
+        q.append(["fk", "chords", "determine", [ch], {"no_polychords": True}])
+    q.append(["fk", "progressions", "to_chords", [["I", "V7"]], {"key": "G"}])
+    q.append(["fk", "progressions", "to_chords", [["I", "V7"]], {}])
+    q.append(["fk", "notes", "int_to_note", [3], {"accidentals": "b"}])
+    q.append(["fk", "notes", "int_to_note", [3], {}])
     for v in [4.571428571428571, 4.571428571428572, 4.5714285714285705, 2.2857142857142856, 2.285714285714286, 10.666666666666666, 10.666666666666668,
               3.0, 3.0000000000000004, 0.26666666666666666]:
         q.append(["f", "value", "determine", [v]])
@@ -126,7 +136,7 @@ def battery():
 
 
 def _qname(q):
-    return "%s.%s" % (q[1], q[2]) if q[0] == "f" else ("scales.%s.%s" % (q[1], q[3]) if q[0] == "scale" else "keys.Key")
+    return "%s.%s" % (q[1], q[2]) if q[0] in ("f", "fk") else ("scales.%s.%s" % (q[1], q[3]) if q[0] == "scale" else "keys.Key")
 
 
 def _mods():
@@ -138,9 +148,11 @@ def _mods():
 def run_query(q, mods=None):
     """-> (raw result, normalised JSON-able result)"""
     mods = mods or _mods()
-    args = copy.deepcopy(q[3] if q[0] == "f" else None)
+    args = copy.deepcopy(q[3] if q[0] in ("f", "fk") else None)
     try:
-        if q[0] == "f":
+        if q[0] == "fk":
+            r = getattr(mods[q[1]], q[2])(*args, **copy.deepcopy(q[4]))
+        elif q[0] == "f":
             a = [tuple(x) if q[1] == "meter" and isinstance(x, list) else x for x in args]
             r = getattr(mods[q[1]], q[2])(*a)
         elif q[0] == "scale":
